@@ -56,6 +56,31 @@ var witnesses = []Vec{
 	{Op: "mod", A: "-9223372036854775808", B: "9223372036854775808"},
 }
 
+// edgeVectors: every pair over the 64-bit edge values for the arithmetic operators and negation. The
+// overflow checks of the machine-word fast paths are decided by single operand pairs (e.g.
+// -2^63 * -1, -2^63 / -1), which a random draw from the pool practically never hits.
+func edgeVectors() []Vec {
+	p63 := new(big.Int).Lsh(big.NewInt(1), 63)
+	var edge []*big.Int
+	for _, d := range []int64{-1, 0, 1} {
+		edge = append(edge, new(big.Int).Add(p63, big.NewInt(d)), new(big.Int).Add(new(big.Int).Neg(p63), big.NewInt(d)))
+	}
+	edge = append(edge, big.NewInt(-2), big.NewInt(-1), big.NewInt(0), big.NewInt(1), big.NewInt(2))
+	var out []Vec
+	for _, a := range edge {
+		out = append(out, Vec{Op: "neg", A: a.String(), B: "0"})
+		for _, b := range edge {
+			for _, op := range []string{"add", "sub", "mul", "div", "mod"} {
+				if (op == "div" || op == "mod") && b.Sign() == 0 {
+					continue
+				}
+				out = append(out, Vec{Op: op, A: a.String(), B: b.String()})
+			}
+		}
+	}
+	return out
+}
+
 // bigVectors draws n operand vectors for the unbounded-integer part (seeded).
 func bigVectors(rng *rand.Rand, n int) []Vec {
 	pool := boundaryPool()
@@ -67,6 +92,9 @@ func bigVectors(rng *rand.Rand, n int) []Vec {
 	}
 	var out []Vec
 	out = append(out, witnesses...)
+	edges := edgeVectors()
+	out = append(out, edges...)
+	n += len(edges)
 	for len(out) < n {
 		op := OpOrder[rng.Intn(len(OpOrder))]
 		a, b := pick(), pick()
